@@ -261,7 +261,14 @@ def run_case(case):
             for name in base:
                 core.check(name in got, "%s GAF / %s graph: %s produced no result", gk, fk, name)
                 if got[name] != base[name]:
-                    a, b = repr(base[name]), repr(got[name])
+                    x_, y_ = base[name], got[name]
+                    if isinstance(x_, dict) and isinstance(y_, dict):
+                        # name the entry that differs (key order is not a difference)
+                        ks = sorted(set(x_) | set(y_), key=repr)
+                        kd = next(k for k in ks if x_.get(k, "<absent>") != y_.get(k, "<absent>"))
+                        name = "%s [%s]" % (name, kd)
+                        x_, y_ = x_.get(kd, "<absent>"), y_.get(kd, "<absent>")
+                    a, b = repr(x_), repr(y_)
                     k = next((i for i, (x, y) in enumerate(zip(a, b)) if x != y), min(len(a), len(b)))
                     raise core.Violation("%s differs between plain/plain and %s GAF / %s graph: ...%s vs ...%s"
                                          % (name, gk, fk, a[max(0, k - 60):k + 120], b[max(0, k - 60):k + 120]))
